@@ -114,6 +114,11 @@ struct fx {
     unsigned last_cc_event;
     bool got_last_cc;
     bool harness_oom;
+    /* ubuf manager requests of the pipes whose id bit is set in defer_mask are not answered at once but
+     * kept until fx_provide_deferred (a downstream that provides its buffer manager later) */
+    unsigned defer_mask;
+    struct urequest *deferred[4];
+    int ndeferred;
 };
 
 UBASE_FROM_TO(fx_probe, uprobe, uprobe, uprobe)
@@ -165,7 +170,14 @@ static int fx_probe_throw(struct uprobe *uprobe, struct upipe *upipe, int event,
         struct urequest *req = va_arg(args, struct urequest *);
         fx_log(fx, p->id, FXE_PROVIDE, req->type, 0, 0);
         switch (req->type) {
-        case UREQUEST_UBUF_MGR: {
+        case UREQUEST_UBUF_MGR:
+            if ((fx->defer_mask >> p->id) & 1) {
+                for (int i = 0; i < fx->ndeferred; i++) if (fx->deferred[i] == req) return UBASE_ERR_NONE;
+                if (fx->ndeferred < 4) { fx->deferred[fx->ndeferred++] = req; return UBASE_ERR_NONE; }
+                fx->harness_oom = true;
+            }
+            /* fallthrough */
+        {
             struct uref *ff = req->uref ? uref_dup(req->uref) : NULL;
             return urequest_provide_ubuf_mgr(req, ubuf_mgr_use(fx->fm.block_mgr), ff);
         }
@@ -219,6 +231,7 @@ static inline int fx_init(struct fx *fx)
     fx->st_cr_sys = fx->st_dts_sys = fx->st_pcr_sys = UINT64_MAX;
     fx->st_ready = false; fx->nstatus = 0; fx->got_last_cc = false; fx->last_cc_event = 0;
     fx->harness_oom = false;
+    fx->defer_mask = 0; fx->ndeferred = 0;
     /* align 1: one octet of slack before the data, none after (see fx_uref_exact) */
     if (fix_mem_init_full(&fx->fm, 0, 0, 0, 1, 0) != 0) return -1;
     fx->fm_up = true;
@@ -228,6 +241,19 @@ static inline int fx_init(struct fx *fx)
         fx->probes[i].id = i;
     }
     return 0;
+}
+
+/* answers the deferred ubuf manager requests (the requesting pipes must still be alive) */
+static inline void fx_provide_deferred(struct fx *fx)
+{
+    fx->defer_mask = 0;
+    int n = fx->ndeferred;
+    fx->ndeferred = 0;
+    for (int i = 0; i < n; i++) {
+        struct urequest *req = fx->deferred[i];
+        struct uref *ff = req->uref ? uref_dup(req->uref) : NULL;
+        urequest_provide_ubuf_mgr(req, ubuf_mgr_use(fx->fm.block_mgr), ff);
+    }
 }
 
 static inline struct uprobe *fx_probe(struct fx *fx, int id)
@@ -311,13 +337,14 @@ static int fx_rec_control(struct upipe *upipe, int command, va_list args)
         return UBASE_ERR_NONE;
     }
     case UPIPE_REGISTER_REQUEST: {
+        /* answered here, through the recorder's probe (a request that is forwarded must be proxied: urequest.registered) */
         struct urequest *req = va_arg(args, struct urequest *);
-        if (r->next) return upipe_register_request(r->next, req);
         return upipe_throw_provide_request(upipe, req);
     }
     case UPIPE_UNREGISTER_REQUEST: {
         struct urequest *req = va_arg(args, struct urequest *);
-        if (r->next) return upipe_unregister_request(r->next, req);
+        for (int i = 0; i < r->fx->ndeferred; i++)
+            if (r->fx->deferred[i] == req) { r->fx->deferred[i] = r->fx->deferred[--r->fx->ndeferred]; break; }
         return UBASE_ERR_NONE;
     }
     default:
@@ -400,6 +427,38 @@ static inline struct uref *fx_uref_segs(struct fx *fx, const uint8_t *data, size
         pos += len;
     }
     return uref;
+}
+
+/* ---------------------------------------------------------------- a request of the harness's own */
+
+/* Registers a uref manager request (and, when with_ubuf, a ubuf manager request for flow format ff) on `upipe`, as an upstream
+ * pipe would, and tells whether each was answered; both are unregistered again. The answers come from the fixture's probes
+ * wherever the pipe (or the chain behind it) throws provide_request. */
+static int fx_rq_uref_answers, fx_rq_ubuf_answers;
+static int fx_rq_uref_cb(struct urequest *r, va_list args)
+{ struct uref_mgr *m = va_arg(args, struct uref_mgr *); (void)r; fx_rq_uref_answers++; uref_mgr_release(m); return UBASE_ERR_NONE; }
+static int fx_rq_ubuf_cb(struct urequest *r, va_list args)
+{ struct ubuf_mgr *m = va_arg(args, struct ubuf_mgr *); struct uref *ff = va_arg(args, struct uref *); (void)r; fx_rq_ubuf_answers++; ubuf_mgr_release(m); uref_free(ff); return UBASE_ERR_NONE; }
+static inline const char *fx_request_roundtrip(struct upipe *upipe, struct uref *ff, bool with_ubuf)
+{
+    struct urequest rq, rq2;
+    const char *bad = NULL;
+    fx_rq_uref_answers = fx_rq_ubuf_answers = 0;
+    urequest_init_uref_mgr(&rq, fx_rq_uref_cb, NULL);
+    if (!ubase_check(upipe_register_request(upipe, &rq))) bad = "registering a uref manager request failed";
+    else if (fx_rq_uref_answers != 1) bad = "a uref manager request registered on the pipe was not answered exactly once";
+    if (!ubase_check(upipe_unregister_request(upipe, &rq)) && !bad) bad = "unregistering the uref manager request failed";
+    urequest_clean(&rq);
+    if (with_ubuf && !bad) {
+        struct uref *dup = uref_dup(ff);
+        if (!dup) return "uref_dup";
+        urequest_init_ubuf_mgr(&rq2, dup, fx_rq_ubuf_cb, NULL);
+        if (!ubase_check(upipe_register_request(upipe, &rq2))) bad = "registering a ubuf manager request failed";
+        else if (fx_rq_ubuf_answers != 1) bad = "a ubuf manager request registered on the pipe was not answered exactly once";
+        if (!ubase_check(upipe_unregister_request(upipe, &rq2)) && !bad) bad = "unregistering the ubuf manager request failed";
+        urequest_clean(&rq2);
+    }
+    return bad;
 }
 
 #ifdef C15_NEED_MUX_STUBS
